@@ -327,6 +327,34 @@ func runC11(c *Ctx) {
 			results[i] = append(results[i], produced{fmt.Sprintf("%s#variant-%d", it.Rel, k), b})
 		}
 	})
+	// generated documents (the calculation grammar in all profiles, payments with
+	// document tax summaries incl. empty rate lists): what validates is forwarded too
+	{
+		nGen := c.N(2400, 60000)
+		gres := make([][]produced, 16)
+		c.Parallel(16, func(ci int) {
+			genCases(c.Seed*100+int64(ci), nGen/16, func(name string, data []byte) {
+				var b []byte
+				var verr error
+				p, _ := Safely(func() {
+					env, e := gx.EnvelopDoc(data)
+					verr = e
+					if e == nil {
+						if verr = env.Validate(); verr == nil {
+							b, verr = json.Marshal(env)
+						}
+					}
+				})
+				if p != nil || verr != nil {
+					c.R.Count("generated_rejected_by_library", 1)
+					return
+				}
+				c.R.Count("generated_accepted", 1)
+				gres[ci] = append(gres[ci], produced{name, b})
+			})
+		})
+		results = append(results, gres...)
+	}
 	tmp, err := os.MkdirTemp("", "verif-c11-")
 	if err != nil {
 		c.R.Inconclusive("tmp")
@@ -404,4 +432,5 @@ func runC11(c *Ctx) {
 		c.R.Count("rejections_by_keyword:"+k, v)
 	}
 	c.R.Sample(map[string]any{"document": items[0].Rel, "validated_against": []string{"envelope.json", items[0].Type + ".json"}})
+	c.Require("generated_accepted", "variants_rejected_by_library")
 }
